@@ -38,7 +38,7 @@ Definition issuers : list Z := [0; 1; 2; 3].
 
 (* tags of the requests of a history (0 = the front's error responses) *)
 Definition tags_of (ops : list op) : list Z :=
-  0 :: flat_map (fun o => match o with OSend _ _ _ _ tag _ _ _ _ => [tag] | _ => [] end) ops.
+  0 :: flat_map (fun o => match o with OSend _ _ _ _ tag _ _ _ _ _ _ => [tag] | _ => [] end) ops.
 
 Definition proj3 (i c t : Z) (l : list item) : list item :=
   filter (fun x => Z.eqb (it_iss x) i && Z.eqb (it_conn x) c && Z.eqb (it_tag x) t) l.
@@ -51,7 +51,7 @@ Definition proj3 (i c t : Z) (l : list item) : list item :=
    requests of one issuer is checked against the issue counters ([in_issue_order] below:
    arrival order = issue order iff the counters increase). *)
 Definition accepts (ops : list op) (obs : list (Z * list ev)) : bool :=
-  let issued := issue_from [] ops in
+  let issued := issue_from [] [] ops in
   (* pushes without content cannot be attributed at the client: they are matched by number only
      (the length test below), the attributable items request by request *)
   let known := filter (fun x => negb (kind_eqb (it_kind x) KEmpty)) issued in
